@@ -1,7 +1,7 @@
 (* Properties_C04.v — C04: storage hints are honoured: nothing the configuration excludes reaches the file.
    [build_qr bp gr tb] is the item (and the table insertions) add_question_response_record derives from a generic
    record under the block parameters in force.  Only statements live here. *)
-Require Import Base Cbor EncoderModel Schema Block BlockProofs Exporter ExporterProofs E2ESpec BlockDecode ViewProofs.
+Require Import Base Cbor EncoderModel Schema Block BlockProofs Exporter ExporterProofs E2ESpec BlockDecode ViewProofs Reachable.
 Local Open Scope N_scope.
 
 (* a member of the query/response item whose hint bit is cleared is absent from the stored item — for every hint mask,
@@ -51,6 +51,31 @@ Theorem C04_rr_hints : forall hrr g,
                      (if N.testbit hrr 1 then rr_rdata g else None)].
 Proof. exact exp_rr_hints. Qed.
 Print Assumptions C04_rr_hints.
+
+(* "... so every table entry in every block is reachable from some stored item": over every history (no hypothesis at all), in every block
+   written and in the one still buffered, every entry of each of the nine tables is reached from a stored query/response, address-event or
+   malformed-message item through the indices items and entries store ([reach]: Reachable.v).  In particular nothing a cleared hint
+   excludes is left behind in a table by a record that was otherwise stored or dropped. *)
+Theorem C04_every_entry_reachable : forall pre ops,
+  Forall (fun b => forall t i, i < N.of_nat (length (tget (b_tb b) t)) -> reach b t i)
+         (x_blk (xrun (x_new pre) ops) :: x_done (xrun (x_new pre) ops)).
+Proof. exact history_entries_reachable. Qed.
+Print Assumptions C04_every_entry_reachable.
+
+(* the statement is not empty: a block holding an address no item refers to (what seed C04-1 produced) is not covered, and a block built from
+   one query/response with a question has entries in five tables, all reachable *)
+Example C04_reachable_nonvacuous :
+  (let b := mkBlk ts0 0 (mkBp 1000 10 262143 131071 3 3) None (tset tables_empty T_ip [VS [10; 0; 0; 1]]) [] [] [] in ~ covered b) /\
+  (let b := fst (add_qr ([Some (VL [VN 5; VN 1]); Some (VS [10; 0; 0; 1]); Some (VN 53)] ++ repeat None 25 ++
+                         [Some (VL [VR [Some (VS [3; 119; 119; 119; 0]); Some (VR [Some (VN 1); Some (VN 1)])]])]) None
+                        (blk_new (mkBp 1000 10 262143 131071 3 3) 0)) in
+   map (fun t => length (tget (b_tb b) t)) all_tids = [1; 1; 1; 0; 1; 1; 0; 0; 0]%nat).
+Proof.
+  split.
+  - cbv zeta. intros C. destruct (C T_ip 0) as [H|H]; [cbn; lia|cbn in H; exact H|cbn in H; exact H].
+  - vm_compute. reflexivity.
+Qed.
+
 (* over whole histories: a record is stored iff at least one enabled member is present, and what is returned for it is the
    hint-filtered record (C01_end_to_end); a malformed message contributes nothing unless its hint bit is set *)
 Theorem C04_log_respects_hints : forall bp gr gm,
